@@ -150,6 +150,12 @@ class Interp:
                     key = x.slice
                 elif isinstance(x, ast.Call) and isinstance(x.func, ast.Attribute) and x.func.attr == "get" and x.args:
                     key = x.args[0]
+                if isinstance(x, ast.Call) and isinstance(x.func, ast.Name) and x.func.id == "getattr" and len(x.args) >= 2 \
+                        and not (isinstance(x.args[1], ast.Constant) and isinstance(x.args[1].value, str)):
+                    self.stack.pop()
+                    self.depth -= 1
+                    raise AnalysisError(f"E9: {qual} picks a method / attribute by a name computed at run time (`{unparse(x)[:50]}`): which handler runs for which "
+                                        "message is not visible to the session model")
                 if key is not None and unparse(key) in ("self._connection_state", "self._connection_role"):
                     self.stack.pop()
                     self.depth -= 1
